@@ -1,7 +1,7 @@
 #!/bin/bash
 # usage: runall.sh [tier] [seed]  - runs every check once, prints a one-line summary each
 tier=${1:-quick}; seed=${2:-1}
-cd /verif
+cd "$(dirname "$0")/.."
 for i in $(seq -w 1 19); do
   p=C$i
   out=$(VERIF_SEED=$seed bin/vcheck run $p --tier $tier 2>&1); rc=$?
